@@ -14,11 +14,23 @@ import (
 // InitBMNumber creates a new BMNumber for a string
 func ImportString(input string) (*BMNumber, error) {
 
+	// The registries are shared by the whole process: look the matcher up under the lock and
+	// run it outside (an import function may register a new type itself)
+	var matched *regexp.Regexp
+	var importer ImportFunc
+	registryMutex.RLock()
 	for k, v := range AllMatchers {
 		re := regexp.MustCompile(k)
 		if re.MatchString(input) {
-			return v(re, input)
+			matched = re
+			importer = v
+			break
 		}
+	}
+	registryMutex.RUnlock()
+
+	if importer != nil {
+		return importer(matched, input)
 	}
 
 	return nil, errors.New("unknown number format " + input)
